@@ -36,18 +36,19 @@ pub fn neighbours(gs: impl Iterator<Item = u16>) -> Vec<u16> {
 // ---------------------------------------------------------------------------
 
 /// Device table content for rule (a, b): start size 9 + a % 5 and three 2-bit deltas taken from
-/// (31 a + 7 b) mod 64, so that device tables of different rules are different objects (a mix-up
-/// of device offsets between rules must be visible): 320 distinct tables.
+/// (31 a + 7 b) mod 125, so that device tables of different rules are different objects (a mix-up
+/// of device offsets between rules must be visible): 625 distinct tables.
 fn device_vals(a: u32, b: u32) -> (u16, [i8; 3]) {
-    let h = (31 * a + 7 * b) % 64;
-    (9 + (a % 5) as u16, [(h % 4) as i8 - 2, ((h / 4) % 4) as i8 - 2, ((h / 16) % 4) as i8 - 2])
+    // deltas from -2..=2: +2 sits just outside the 2-bit range, so some tables are 2-bit and some 4-bit
+    let h = (31 * a + 7 * b) % 125;
+    (9 + (a % 5) as u16, [(h % 5) as i8 - 2, ((h / 5) % 5) as i8 - 2, ((h / 25) % 5) as i8 - 2])
 }
 
 /// A second, disjoint family of device tables (start sizes 20..=24) for value record 2, so that a
 /// record-2 offset that is linked to a record-1 device object is always visible.
 fn device_vals2(a: u32, b: u32) -> (u16, [i8; 3]) {
-    let h = (13 * a + 29 * b + 5) % 64;
-    (20 + (b % 5) as u16, [(h % 4) as i8 - 2, ((h / 4) % 4) as i8 - 2, ((h / 16) % 4) as i8 - 2])
+    let h = (13 * a + 29 * b + 5) % 125;
+    (20 + (b % 5) as u16, [(h % 5) as i8 - 2, ((h / 5) % 5) as i8 - 2, ((h / 25) % 5) as i8 - 2])
 }
 
 /// style: 0 = xAdv, 1 = xAdv+yPla | xPla, 2 = xAdv + Device, 3 = xAdv + VariationIndex (direct
@@ -90,7 +91,7 @@ pub fn rule_values(style: u8, a: u32, b: u32) -> ((RVal, RVal), (ValueRecordBuil
     ((e1, e2), (b1, b2))
 }
 
-pub /// Boundary-complete device delta sets: every single delta on and next to a format boundary
+/// Boundary-complete device delta sets: every single delta on and next to a format boundary
 /// (2-bit: -2..=1, 4-bit: -8..=7, 8-bit: -128..=127), mixes of a boundary value with small values,
 /// and size ranges of length 1, 8, 9 (2-bit word boundary), 4, 5 (4-bit), 2, 3 (8-bit).
 pub fn device_delta_sets() -> Vec<Vec<i8>> {
@@ -403,6 +404,72 @@ fn build_case(c: &Case) -> (w::PositionLookup, Expect) {
             m.seconds.extend(S3);
             let subs = b.build(&mut vs);
             (w::PositionLookup::Pair(wl::Lookup::new(wl::LookupFlag::empty(), subs)), Expect::Pair(m))
+        }
+        // one rule whose device table carries delta set a (see `device_delta_sets`), on carrier b:
+        // 0 glyph-pair record 1 xAdvDevice, 1 glyph-pair record 2 xPlaDevice, 2 class-pair record 1
+        // yPlaDevice, 3 mark anchor x device, 4 base anchor y device
+        "device_boundary" => {
+            let dv = device_delta_sets()[c.a as usize].clone();
+            let dev = wl::Device::new(9, 9 + dv.len() as u16 - 1, &dv);
+            let exp = RDev::expected(9, &dv);
+            match c.b {
+                0 | 1 | 2 => {
+                    let mut b = PairPosBuilder::default();
+                    let mut m = PairModel::default();
+                    let mut e1 = RVal::default();
+                    let mut e2 = RVal::default();
+                    e1.v[2] = 5;
+                    let mut b1 = ValueRecordBuilder::new().with_x_advance(5);
+                    let mut b2 = ValueRecordBuilder::new();
+                    match c.b {
+                        0 => {
+                            b1 = b1.with_x_advance_device(dev);
+                            e1.dev[2] = Some(exp);
+                        }
+                        1 => {
+                            b2 = b2.with_x_placement(3).with_x_placement_device(dev);
+                            e2.v[0] = 3;
+                            e2.dev[0] = Some(exp);
+                        }
+                        _ => {
+                            b1 = b1.with_y_placement(-4).with_y_placement_device(dev);
+                            e1.v[1] = -4;
+                            e1.dev[1] = Some(exp);
+                        }
+                    }
+                    if c.b == 2 {
+                        let (c1, c2): (BTreeSet<u16>, BTreeSet<u16>) = ([10, 11].into(), [20, 21].into());
+                        let s1: IntSet<GlyphId16> = c1.iter().map(|g| gid(*g)).collect();
+                        let s2: IntSet<GlyphId16> = c2.iter().map(|g| gid(*g)).collect();
+                        b.insert_classes(s1, b1, s2, b2);
+                        m.add_class_rule(&c1, &c2, (e1, e2));
+                    } else {
+                        b.insert_pair(gid(10), b1, gid(20), b2);
+                        m.add_glyph_rule(10, 20, (e1, e2));
+                    }
+                    let subs = b.build(&mut vs);
+                    (w::PositionLookup::Pair(wl::Lookup::new(wl::LookupFlag::empty(), subs)), Expect::Pair(m))
+                }
+                _ => {
+                    let mut b = MarkToBaseBuilder::default();
+                    let (mut ma, mut ba) = (AnchorBuilder::new(5, -5), AnchorBuilder::new(50, 9));
+                    let mut em = RAnchor { x: 5, y: -5, point: None, xdev: None, ydev: None };
+                    let mut eb = RAnchor { x: 50, y: 9, point: None, xdev: None, ydev: None };
+                    if c.b == 3 {
+                        ma = ma.with_x_device(dev);
+                        em.xdev = Some(exp);
+                    } else {
+                        ba = ba.with_y_device(dev);
+                        eb.ydev = Some(exp);
+                    }
+                    let _ = b.insert_mark(gid(30), "a", ma);
+                    b.insert_base(gid(40), "a", ba);
+                    let marks = HashMap::from([(30u16, ("a".to_string(), em))]);
+                    let bases = HashMap::from([(40u16, HashMap::from([("a".to_string(), eb)]))]);
+                    let subs = b.build(&mut vs);
+                    (w::PositionLookup::MarkToBase(wl::Lookup::new(wl::LookupFlag::empty(), subs)), Expect::MarkBase { marks, bases })
+                }
+            }
         }
         // marks 30,31,33: absent / class "a" / class "b" (base 3); bases 40,42: subset of {a,b}
         // (base 4 each, restricted to classes that have a mark); variant b = anchor style
@@ -823,6 +890,14 @@ pub fn part_b(run: &Run) {
         }
     }
     run_cases(run, &cases, "MarkToBaseBuilder: 3 marks x {absent,a,b} x 2 bases x subsets of {a,b} x 3 anchor styles");
+    // device tables on every format boundary, through every builder entry point that takes a Device
+    let mut cases = vec![];
+    for i in 0..device_delta_sets().len() as u64 {
+        for carrier in 0..5 {
+            cases.push(Case::small("device_boundary", i, carrier));
+        }
+    }
+    run_cases(run, &cases, "Device boundary: 29 delta sets (every delta of {0,1,2,-2,-3,7,8,-8,-9,127,-128} alone; boundary/small mixes; ranges of 1,8,9 / 4,5 / 2,3 sizes) x {pair rec1, pair rec2, class pair, mark anchor, base anchor}; raw words and decoded deltas compared");
 }
 
 /// size model used only to *place* the sweeps (the verdict never depends on it)
